@@ -45,7 +45,7 @@ require (
 	github.com/lufia/plan9stats v0.0.0-20250827001030-24949be3fa54
 	github.com/nfnt/resize v0.0.0-20180221191011-83c6a9932646 // indirect
 	github.com/pelletier/go-toml/v2 v2.2.4 // indirect
-	github.com/pires/go-proxyproto v0.13.0 // indirect
+	github.com/pires/go-proxyproto v0.13.0
 	github.com/pmezard/go-difflib v1.0.1-0.20181226105442-5d4384ee4fb2
 	github.com/power-devops/perfstat v0.0.0-20240221224432-82ca36839d55
 	github.com/robinbraemer/event v0.1.1
